@@ -29,5 +29,20 @@ if bmark in s:
 else:
     b=a+len('<!-- SEEDED-TABLE -->')
 s=s[:a]+'<!-- SEEDED-TABLE -->\n'+"\n".join(rows)+'\n'+bmark+s[b:]
+# harmless edits (section 8.2)
+bp='/verif/out/benign_results.json'
+if os.path.exists(bp) and '<!-- BENIGN-TABLE -->' in s:
+    br=json.load(open(bp))
+    RED={'A':['C01','C09','C11'],'B':['C02','C07','C12'],'C':['C03','C04','C18'],'D':['C07','C08','C19'],'E':['C07','C12','C19'],'F':['C05','C13'],'G':['C06'],'H':['C15','C16','C17']}
+    rows=["| edit | kind | what | checks run | alarms |","|---|---|---|---|---|"]
+    for k in sorted(br):
+        r=br[k]
+        rows.append(f"| {k} | {r.get('kind','')} | {(r.get('summary') or '')[:110].replace('|','/')} | {' '.join(r.get('props') or RED[k[0]])} | {' '.join(r.get('alarms') or []) or 'none'} |")
+    quiet=sum(1 for r in br.values() if not r.get('alarms') and 'error' not in r)
+    rows.append("")
+    rows.append(f"{quiet} of {len(br)} harmless edits leave every affected check quiet.")
+    a=s.index('<!-- BENIGN-TABLE -->'); bm='<!-- /BENIGN-TABLE -->'
+    b=s.index(bm)+len(bm) if bm in s else a+len('<!-- BENIGN-TABLE -->')
+    s=s[:a]+'<!-- BENIGN-TABLE -->\n'+"\n".join(rows)+'\n'+bm+s[b:]
 open('/verif/DESIGN.md','w').write(s)
 print("tables written:",len(res),"changes")
